@@ -343,6 +343,12 @@ def tankDemand (ins outs : List Rat) (leakStatus : Bool) (leakRate : Rat) : Rat 
 /-- reservoir: `sum(flow INLET) - sum(flow OUTLET)` -/
 def reservoirDemand (ins outs : List Rat) : Rat := sumRat ins - sumRat outs
 
+/-- non-isolated junction: `(node._demand, node._leak_demand)` —
+`m.demand[name].value if mode in ['PDD','PDA'] else m.expected_demand[name].value`,
+`m.leak_rate[name].value if node.leak_status else 0` -/
+def junctionStored {α : Type} (pdd : Bool) (demandVar expected : α) (leakStatus : Bool) (leakRate zero : α) : α × α :=
+  ((if pdd then demandVar else expected), (if leakStatus then leakRate else zero))
+
 def absRat (x : Rat) : Rat := if x < 0 then -x else x
 
 /-- oracle: `|Σin − Σout − demand − leak| ≤ tol + slack·Σ|q|` -/
@@ -434,14 +440,11 @@ def zooIncidence (links : List ZLink) (vars params : List String) (pdd : Bool) (
   let d : Option (Bool × Nat) :=
     if pdd then (leafIdx vars ("demand[" ++ r.junction ++ "]")).map (fun i => (false, i))
     else (leafIdx params ("expected_demand[" ++ r.junction ++ "]")).map (fun i => (true, i))
-  match d, allSome (insOf links vars r.junction), allSome (outsOf links vars r.junction) with
-  | some d, some ins, some outs =>
-    if r.leakStatus then
-      (match leafIdx vars ("leak_rate[" ++ r.junction ++ "]") with
-       | some k => some (d, ins, outs, some k)
-       | none => none)
-    else some (d, ins, outs, none)
-  | _, _, _ => none
+  let leak : Option (Option Nat) :=
+    if r.leakStatus then (leafIdx vars ("leak_rate[" ++ r.junction ++ "]")).map some else some none
+  match d, allSome (insOf links vars r.junction), allSome (outsOf links vars r.junction), leak with
+  | some d, some ins, some outs, some leak => some (d, ins, outs, leak)
+  | _, _, _, _ => none
 
 /-- the generated row has exactly the signed leaves `+D − Σ INLET + Σ OUTLET (+ leak iff leak_status)` of the
 zoo's link table, in any order -/
